@@ -156,8 +156,9 @@ PROPS["C20"] = {
     "level": "proof",
     "level_text": "order formulas and well-formedness of FCN (fixed margin), market maker and arbitrage agents as postconditions over symbolic market states and parameters; loop invariants for the running max/min and the component basket",
     "level_note": COMMON_NOTE + "; log/exp/gauss uninterpreted (only exp > 0, monotonicity facts); market accessors abstracted to ghost functions, themselves verified under C06/C17",
-    "tasks": ["FCNAgent.submit_orders_by_market", "MarketMakerAgent.get_base_price", "MarketMakerAgent.submit_orders", "ArbitrageAgent._submit_orders"],
-    "not_decided": ["MarketShareFCNAgent market choice (weights = recent traded volume + 1e-10, then the FCN order on the chosen market): contract not finished; normal-margin mode of FCN"],
+    "tasks": ["FCNAgent.submit_orders_by_market", "MarketMakerAgent.get_base_price", "MarketMakerAgent.submit_orders", "ArbitrageAgent._submit_orders", "MarketShareFCNAgent.submit_orders",
+              "Agent.is_market_accessible"],
+    "not_decided": ["MarketShareFCNAgent: the weights (recent traded volume + 1e-10) are not specified, only that the order is the FCN order of one accessible market of the list; normal-margin mode of FCN"],
 }
 PROPS["C07"] = {
     "level": "other",
